@@ -51,6 +51,16 @@ func (w *wireReq) get(name string) (string, bool) {
 	return "", false
 }
 
+func (w *wireReq) getAll(name string) []string {
+	var out []string
+	for _, h := range w.headers {
+		if strings.EqualFold(h.name, name) {
+			out = append(out, h.value)
+		}
+	}
+	return out
+}
+
 func (w *wireReq) del(name string) {
 	var out []hline
 	for _, h := range w.headers {
